@@ -3,7 +3,7 @@
 # property that uses them.  usage: tools/retriage.sh <facts dir>
 cd "$(dirname "$0")/.."
 F=${1:-/tmp/gfacts}
-for p in C01 C08 C09 C10 C18 C19; do VERIF_NO_TABLES=1 VERIF_DUMP_OPEN=/tmp/open-$p.json ./check $p --facts $F >/dev/null 2>&1; done
+for p in C01 C08 C09 C10 C11 C13 C14 C15 C16 C18 C19; do VERIF_NO_TABLES=1 VERIF_DUMP_OPEN=/tmp/open-$p.json ./check $p --facts $F >/dev/null 2>&1; done
 cp known_findings.json /tmp/kf.bak 2>/dev/null
 python3 - <<'PY'
 import json,os
@@ -12,4 +12,4 @@ fixed=json.load(open(p)).get('fixed',[]) if os.path.exists(p) else []
 json.dump({'findings':[], 'fixed':fixed}, open(p,'w'), indent=1)
 PY
 rm -f tables/reviewed_sites.json
-python3 tools/triage.py /tmp/open-C01.json /tmp/open-C08.json /tmp/open-C09.json /tmp/open-C10.json /tmp/open-C18.json /tmp/open-C19.json
+python3 tools/triage.py /tmp/open-C*.json
